@@ -120,6 +120,20 @@ var zzC07Terms = map[string]string{
 	"cname_sub":   "laptop",
 	"cname_exact": `"dads-laptop"`,
 	"nomatch":     "zzz-nothing",
+	// Degenerate terms.
+	"q_one":    `"`,
+	"q_lead":   `"y`,
+	"q_trail":  `x\"`,
+	"ws":       " ",
+	"q_empty":  `""`,
+	"q_triple": `"""`,
+}
+
+// zzC07OddStatuses are response_status values outside the enumeration.
+var zzC07OddStatuses = map[string]string{
+	"bad_quote":  `"`,
+	"bad_word":   "bogus",
+	"bad_quoted": `"all"`,
 }
 
 // zzC07FindClient is the FindClient callback of the harness: the persistent
@@ -1140,7 +1154,12 @@ func (x *zzC07Log) search(q *zzC07Q) (r zzC07Reply) {
 	}
 
 	if q.Status != "none" {
-		v.Set("response_status", q.Status)
+		st := q.Status
+		if odd, ok := zzC07OddStatuses[st]; ok {
+			st = odd
+		}
+
+		v.Set("response_status", st)
 	}
 
 	x.queries++
@@ -1728,6 +1747,9 @@ func (x *zzC07Log) step(in *zzC07Input, st *zzC07Step, expectFp bool) (err error
 		err = x.restoreFile()
 	case "rotate":
 		err = x.l.rotate(ctx)
+	case "rotcheck":
+		// The periodic rotation check (at start, then hourly).
+		x.l.checkAndRotate(ctx)
 	case "clear":
 		code, _, pan := x.serve(http.MethodPost, "/control/querylog_clear", "", nil)
 		if pan != "" || code != http.StatusOK {
@@ -1751,6 +1773,12 @@ func (x *zzC07Log) step(in *zzC07Input, st *zzC07Step, expectFp bool) (err error
 
 		if err == nil {
 			err = x.open(zzC07ArgInt(st.Args, "ms"), c.FileEnabled, c.Enabled, c.AnonymizeClientIP)
+		}
+
+		if err == nil {
+			// Start runs the rotation check right away (periodicRotate); the
+			// goroutine with its hourly ticker is not started here.
+			x.l.checkAndRotate(ctx)
 		}
 	default:
 		err = fmt.Errorf("unknown action %q", st.Act)
@@ -2037,7 +2065,7 @@ func (r *zzC07Run) observe(lite bool) {
 	if !lite {
 		h.mu.Lock()
 		h.visits[r.cur]++
-		reduced = h.visits[r.cur] > 2
+		reduced = h.visits[r.cur] > 1
 		h.mu.Unlock()
 	}
 
@@ -2123,7 +2151,7 @@ func (r *zzC07Run) windowChain(row *zzC07StateRow, q0 *zzC07Q) {
 // ---- planning
 
 var zzC07ActPrio = map[string]int{
-	"conf": 1, "enc": 2, "app": 2, "appfail": 2, "autoflush": 0, "autoflushfail": 0, "rotate": 2, "restart": 2,
+	"conf": 1, "enc": 2, "app": 2, "appfail": 2, "rotcheck": 2, "autoflush": 0, "autoflushfail": 0, "rotate": 2, "restart": 2,
 	"rec": 3, "clear": 4,
 }
 
@@ -2312,7 +2340,13 @@ func (h *zzC07Harness) oneWalk(id, init int) {
 		status, got := r.do(st)
 		switch status {
 		case "ok":
-			r.observe(!covering)
+			// A step that only moves, or one the spec and the projection both
+			// say changed nothing in a state whose table has been put before:
+			// the short observation.
+			h.mu.Lock()
+			seen := h.visits[r.cur] > 0
+			h.mu.Unlock()
+			r.observe(!covering || g.self && seen)
 		case "unobservable":
 			h.mu.Lock()
 			h.unobservable++
@@ -2358,6 +2392,7 @@ func zzC07Load(t *testing.T) (in *zzC07Input) {
 					C []string `json:"c"`
 				} `json:"terms"`
 				RawMiss map[string][]string `json:"rawmiss"`
+				Loose   []string            `json:"loose"`
 			}
 
 			if err := json.Unmarshal(line, &tab); err != nil {
@@ -2370,6 +2405,11 @@ func zzC07Load(t *testing.T) (in *zzC07Input) {
 				s, ok := zzC07Terms[term]
 				if !ok {
 					t.Fatalf("term %q of the spec has no concrete string", term)
+				}
+
+				if zzC07Has(tab.Loose, term) {
+					// What such a term selects is not fixed.
+					continue
 				}
 
 				for nk, n := range zzC07Names {
@@ -2386,6 +2426,9 @@ func zzC07Load(t *testing.T) (in *zzC07Input) {
 			// selects by the name itself but not by the raw JSON text of the
 			// name up to its first double quote.
 			for term, miss := range tab.RawMiss {
+				if zzC07Has(tab.Loose, term) {
+					continue
+				}
 				for nk, n := range zzC07Names {
 					b, _ := json.Marshal(n.ascii)
 					raw := string(b[1 : len(b)-1])
@@ -2689,7 +2732,8 @@ func TestZZVerifC07Trace(t *testing.T) {
 
 	sort.Strings(terms)
 	statuses := []string{"none", "all", "filtered", "blocked", "blocked_services", "blocked_safebrowsing",
-		"blocked_parental", "whitelisted", "rewritten", "safe_search", "processed"}
+		"blocked_parental", "whitelisted", "rewritten", "safe_search", "processed",
+		"bad_quote", "bad_word", "bad_quoted"}
 
 	type proj struct {
 		Mem   []int `json:"mem"`
@@ -2762,9 +2806,9 @@ func TestZZVerifC07Trace(t *testing.T) {
 	// the reader) has no clear and half of its records carry the 3 KB rule.
 	big := zzGetenv("VERIF_C07_BIG") != ""
 	ops := float64(nrec) / 0.78
-	pFlush, pRotate, pClear, pConf, pRestart := 25.0/1000, 3/ops, 1/ops, 4/ops, 4/ops
+	pFlush, pRotate, pClear, pConf, pRestart := 25.0/1000, 6/ops, 1/ops, 4/ops, 4/ops
 	if big {
-		pClear, pRotate = 0, 1/ops
+		pClear, pRotate = 0, 2/ops
 	}
 
 	longShape := 0
@@ -2959,8 +3003,13 @@ func TestZZVerifC07Trace(t *testing.T) {
 				emit("flush", nil)
 			}
 		case roll < 982:
-			_ = x.step(nil, &zzC07Step{Act: "rotate"}, false)
-			emit("rotate", nil)
+			if rng.Intn(2) == 0 {
+				_ = x.step(nil, &zzC07Step{Act: "rotcheck"}, false)
+				emit("rotcheck", nil)
+			} else {
+				_ = x.step(nil, &zzC07Step{Act: "rotate"}, false)
+				emit("rotate", nil)
+			}
 		case roll < 984:
 			_ = x.step(nil, &zzC07Step{Act: "clear"}, false)
 			emit("clear", nil)
